@@ -103,6 +103,25 @@ macro_rules! div {
     };
 }
 
+/// The result of integer arithmetic as an INTEGER, or an overflow if it does not fit.
+fn integer_or_overflow(value: i64) -> Result<Variant, VariantError> {
+    if value >= MIN_INTEGER as i64 && value <= rusty_bit_vec::MAX_INTEGER as i64 {
+        Ok(Variant::VInteger(value as i32))
+    } else {
+        Err(VariantError::Overflow)
+    }
+}
+
+/// The result of long arithmetic as a LONG, or an overflow if it does not fit.
+fn long_or_overflow(value: Option<i64>) -> Result<Variant, VariantError> {
+    match value {
+        Some(value) if (MIN_LONG..=rusty_bit_vec::MAX_LONG).contains(&value) => {
+            Ok(Variant::VLong(value))
+        }
+        _ => Err(VariantError::Overflow),
+    }
+}
+
 // TODO implement standard operators with panics, let the linter guarantee the type compatibility
 
 impl Variant {
@@ -217,12 +236,12 @@ impl Variant {
                 _ => Err(VariantError::TypeMismatch),
             },
             Self::VInteger(i_left) => match other {
-                Self::VInteger(i_right) => Ok(Self::VInteger(i_left + i_right)),
-                Self::VLong(l_right) => Ok(Self::VLong(i_left as i64 + l_right)),
+                Self::VInteger(i_right) => integer_or_overflow(i_left as i64 + i_right as i64),
+                Self::VLong(l_right) => long_or_overflow((i_left as i64).checked_add(l_right)),
                 _ => other.plus(self),
             },
             Self::VLong(l_left) => match other {
-                Self::VLong(l_right) => Ok(Self::VLong(l_left + l_right)),
+                Self::VLong(l_right) => long_or_overflow(l_left.checked_add(l_right)),
                 _ => other.plus(self),
             },
             _ => Err(VariantError::TypeMismatch),
@@ -236,22 +255,28 @@ impl Variant {
                 Self::VDouble(d_right) => Ok(Self::VDouble(f_left as f64 - d_right)),
                 Self::VInteger(i_right) => Ok(Self::VSingle(f_left - i_right as f32)),
                 Self::VLong(l_right) => Ok(Self::VSingle(f_left - l_right as f32)),
-                _ => other.minus(self).and_then(|x| x.negate()),
+                _ => Err(VariantError::TypeMismatch),
             },
             Self::VDouble(d_left) => match other {
+                Self::VSingle(f_right) => Ok(Self::VDouble(d_left - f_right as f64)),
                 Self::VDouble(d_right) => Ok(Self::VDouble(d_left - d_right)),
                 Self::VInteger(i_right) => Ok(Self::VDouble(d_left - i_right as f64)),
                 Self::VLong(l_right) => Ok(Self::VDouble(d_left - l_right as f64)),
-                _ => other.minus(self).and_then(|x| x.negate()),
+                _ => Err(VariantError::TypeMismatch),
             },
             Self::VInteger(i_left) => match other {
-                Self::VInteger(i_right) => Ok(Self::VInteger(i_left - i_right)),
-                Self::VLong(l_right) => Ok(Self::VLong(i_left as i64 - l_right)),
-                _ => other.minus(self).and_then(|x| x.negate()),
+                Self::VSingle(f_right) => Ok(Self::VSingle(i_left as f32 - f_right)),
+                Self::VDouble(d_right) => Ok(Self::VDouble(i_left as f64 - d_right)),
+                Self::VInteger(i_right) => integer_or_overflow(i_left as i64 - i_right as i64),
+                Self::VLong(l_right) => long_or_overflow((i_left as i64).checked_sub(l_right)),
+                _ => Err(VariantError::TypeMismatch),
             },
             Self::VLong(l_left) => match other {
-                Self::VLong(l_right) => Ok(Self::VLong(l_left - l_right)),
-                _ => other.minus(self).and_then(|x| x.negate()),
+                Self::VSingle(f_right) => Ok(Self::VSingle(l_left as f32 - f_right)),
+                Self::VDouble(d_right) => Ok(Self::VDouble(l_left as f64 - d_right)),
+                Self::VInteger(i_right) => long_or_overflow(l_left.checked_sub(i_right as i64)),
+                Self::VLong(l_right) => long_or_overflow(l_left.checked_sub(l_right)),
+                _ => Err(VariantError::TypeMismatch),
             },
             _ => Err(VariantError::TypeMismatch),
         }
@@ -273,12 +298,12 @@ impl Variant {
                 _ => other.multiply(self),
             },
             Self::VInteger(i_left) => match other {
-                Self::VInteger(i_right) => Ok(Self::VInteger(i_left * i_right)),
-                Self::VLong(l_right) => Ok(Self::VLong(i_left as i64 * l_right)),
+                Self::VInteger(i_right) => integer_or_overflow(i_left as i64 * i_right as i64),
+                Self::VLong(l_right) => long_or_overflow((i_left as i64).checked_mul(l_right)),
                 _ => other.multiply(self),
             },
             Self::VLong(l_left) => match other {
-                Self::VLong(l_right) => Ok(Self::VLong(l_left * l_right)),
+                Self::VLong(l_right) => long_or_overflow(l_left.checked_mul(l_right)),
                 _ => other.multiply(self),
             },
             _ => Err(VariantError::TypeMismatch),
